@@ -3,6 +3,7 @@ package c08
 import (
 	"encoding/json"
 	"fmt"
+	"hash/crc32"
 	"os"
 	"sort"
 	"strings"
@@ -382,6 +383,14 @@ func Generate(seed uint64, n int, tier string, corpusDir string, out *kit.Out) e
 	for i := 0; i < n; i++ {
 		cr := r.Fork()
 		sc := genScenario(cr, backends[i%len(backends)], i%5 == 4)
+		// long keys: a few per quick run (one per backend kind), one in twelve in the thorough tier
+		every := 40
+		if tier == "thorough" {
+			every = 12
+		}
+		if i%every == every-1 {
+			sc = genLongScenario(cr, []string{"cached", "mem", "bbolt", "cached-bbolt", "cached"}[(i/every)%5])
+		}
 		if err := emit(sc, out); err != nil {
 			return err
 		}
@@ -418,7 +427,7 @@ func shapeKey(sc *scenario) string {
 	var sb strings.Builder
 	sb.WriteString(sc.Backend)
 	for _, v := range sc.Views {
-		fmt.Fprintf(&sb, "|%s/%s/%s", strings.Join(v.PK, ","), strings.Join(v.CC, ","), v.Var)
+		fmt.Fprintf(&sb, "|%s/%s/%s%d", strings.Join(v.PK, ","), strings.Join(v.CC, ","), v.Var, v.VarMax)
 	}
 	ks := func(k keySpec) string {
 		var s strings.Builder
@@ -428,6 +437,9 @@ func shapeKey(sc *scenario) string {
 			} else {
 				fmt.Fprintf(&s, "%x.", *p)
 			}
+		}
+		if len(k.V) > 40 { // long trailing values: length, checksum and tail identify the shape
+			return fmt.Sprintf("%s:%d/%08x/%s", s.String(), len(k.V)/2, crc32.ChecksumIEEE([]byte(k.V)), k.V[len(k.V)-6:])
 		}
 		return s.String() + ":" + k.V
 	}
